@@ -216,6 +216,78 @@ def rule_sast_metadata(ctx, rep):
         rep.check("R-SAST-METADATA", cm.id, cm.where, not problems, "metadata", "; ".join(problems), kind=cm.kind, tool=cm.tool_name)
 
 
+def rule_report_complete(ctx, rep, rule_id="R-REPORT-COMPLETE"):
+    """(a) the functions the changesets pass through on their way into the Result keep every changeset and every change;
+    (b) run() cannot finish with status 0 and --output given without having written the report."""
+    from .c10 import _maps_all
+
+    rep.rule(
+        rule_id,
+        "what compile_results puts into Result.changeset went only through element-preserving functions (each returns its parameter or a "
+        "filter-free map of it and contains no filtering comprehension over changesets / changes), and every `return 0` of run() is "
+        "reached either with --output unset or after write_report",
+        min_instances=2,
+    )
+    fn = ctx.prog.func(COMPILE)
+    r = ctx.resolver(fn)
+    ctor = [n for n in walk_no_nested(fn.node) if isinstance(n, ast.Call) and r.callee_qname(n) == RESULT]
+    seen = set()
+    for c in ctor:
+        v = next((k.value for k in c.keywords if k.arg == "changeset"), None)
+        v = r.expand(v) if v is not None else None
+        work = [v] if v is not None else []
+        while work:
+            e = work.pop()
+            if not isinstance(e, ast.Call):
+                continue
+            for t in r.resolve_call(e):
+                if not isinstance(t, FuncInfo) or t.qname in seen or t.cls is not None:
+                    continue
+                seen.add(t.qname)
+                # which parameter receives the changesets
+                from ..model import bind_args
+
+                b = bind_args(e, t, False)
+                cs_params = [p for p, a in b.items() if isinstance(a, ast.Call) and last_attr(a.func) == "get_changesets" or isinstance(a, ast.Name) and "changeset" in a.id.lower()]
+                cs_params = cs_params or [p for p in t.params() if "changeset" in p.lower()]
+                rets = [n.value for n in walk_no_nested(t.node) if isinstance(n, ast.Return) and n.value is not None]
+                ok = bool(rets) and bool(cs_params)
+                why = ""
+                for rv in rets:
+                    if not any(_maps_all(Resolver_expand(ctx, t, rv), p_) for p_ in cs_params):
+                        ok = False
+                        why = f"returns `{unparse(rv)[:60]}`, which is not its changesets parameter nor a filter-free map of it"
+                for n in ast.walk(t.node):  # nested helper functions included
+                    if isinstance(n, (ast.ListComp, ast.GeneratorExp, ast.SetComp)) and any(g.ifs for g in n.generators):
+                        txt = " ".join(unparse(g.iter) for g in n.generators)
+                        if "change" in txt.lower():
+                            ok = False
+                            why = f"`{unparse(n)[:70]}` filters while rebuilding the changesets (entries of the report are dropped)"
+                rep.check(rule_id, t.qname, t.loc(), ok, "element-preserving", why or "changesets parameter not identified")
+            work += list(e.args)
+    run = ctx.prog.func("codemodder.codemodder.run")
+    rr = ctx.resolver(run)
+
+    def ev(call):
+        return "EV:report" if last_attr(call.func) == "write_report" else None
+
+    fa = FlowAnalysis(run.node, ev)
+    n0 = 0
+    for ex in fa.exits:
+        if ex.kind != "return" or not (isinstance(ex.value, ast.Constant) and ex.value.value == 0):
+            continue
+        n0 += 1
+        bad = [must for must, may in ex.state.parts if (True, "EV:report") not in must and not any((not pol) and txt.endswith(".output") for pol, txt in must)]
+        rep.check(rule_id, run.qname, run.loc(ex.node), not bad, f"return 0#{n0}",
+                  "run() can finish with status 0 although --output was given and no report has been written on that path")
+    if n0 == 0:
+        raise AnalysisError("run() has no `return 0`")
+
+
+def Resolver_expand(ctx, fn, e):
+    return ctx.resolver(fn).expand(e)
+
+
 def check(ctx, rep):
     rep.explanation = (
         "compile_results is decided path-by-path (exactly one Result per codemod); the 7 ChangeSet constructions are tied to the "
@@ -228,6 +300,7 @@ def check(ctx, rep):
     rule_nonempty_changes(ctx, rep)
     rule_description_nonempty(ctx, rep)
     rule_sast_metadata(ctx, rep)
+    rule_report_complete(ctx, rep)
     from .c03 import rule_line_unit
 
     rule_line_unit(ctx, rep)
